@@ -34,6 +34,9 @@ REFUSAL = (BTClibValueError, BTClibTypeError)
 
 
 def validate_models() -> None:
+    # the model's primality test against trial division (a thorough run once took 43 for composite: it was its own Miller-Rabin base)
+    if [n for n in range(2, 3000) if ref.is_prime(n)] != [n for n in range(2, 3000) if all(n % q for q in range(2, int(n**0.5) + 1))]:
+        raise HarnessError("ec_ref.is_prime disagrees with trial division below 3000")
     for p, a, b, G, n, h, N in ref.toy_curves(7):
         pts = [None] + ref.points(p, a, b)
         for P in pts:
